@@ -592,7 +592,7 @@ fn run_pingpong(ctx: &mut Ctx, workers: u8, rounds: u16, pauses: &[u8]) {
     match out {
         Ok((accepted, lost)) => {
             ctx.out.checks += accepted;
-            if accepted >= 100 {
+            if accepted >= 50 {
                 ctx.nontrivial();
             }
             ctx.label(format!("pingpong_workers_{workers}"));
@@ -1966,9 +1966,11 @@ impl Prop for P {
         // lone submits to an executor that has gone idle (lost wake-ups need thousands of attempts)
         v.push(Plan::new(
             "ws_exec_pingpong",
-            q(8, 1200),
+            q(8, 120),
             0,
-            (1u8..=4, q(2500, 6000)..=q(5000, 20_000), proptest::collection::vec(any::<u8>(), 1..24)).prop_map(|(workers, rounds, pauses)| Case::PingPong { workers, rounds: rounds as u16, pauses }),
+            // a round costs about one idle-poll period of the executor (tens of ms): the quick
+            // tier can only sample this, the thorough tier makes ~400 000 attempts
+            (1u8..=4, q(150, 2000)..=q(300, 5000), proptest::collection::vec(any::<u8>(), 1..24)).prop_map(|(workers, rounds, pauses)| Case::PingPong { workers, rounds: rounds as u16, pauses }),
         ));
         v.push(Plan::new("ws_exec_1worker", q(2400, 40_000), 0, exec_case(Just(1u8).boxed(), Just(0u8).boxed(), 8)));
         v.push(Plan::new("ws_exec_multi", q(9000, 150_000), 0, exec_case((2u8..=4).boxed(), Just(0u8).boxed(), 10)));
